@@ -3,6 +3,7 @@ package main
 import (
 	"fmt"
 	"math/rand"
+	"strings"
 )
 
 // C10: struct tags at every depth, several failing nodes at once, IssuePath overrides; Go maps
@@ -25,7 +26,38 @@ func famTags(tw *traceWriter, r *rand.Rand, n int) {
 		} else {
 			c.Input = genValue(r, sch)
 		}
+		if fe == "json" && mode == "parse" {
+			addCaseVariants(r, sch, c.Input)
+		}
 		tw.emitCase(c, "", true)
+	}
+}
+
+// JSON member names are matched exactly: members whose names differ from a field's key only by case are not that field.
+// For absent leaf fields of the root, two such members with different values are added to the document.
+func addCaseVariants(r *rand.Rand, sch *Node, in *Input) {
+	if in.T != "map" {
+		return
+	}
+	for _, k := range sch.Kids {
+		if k.Node.K != "prim" || r.Intn(3) != 0 {
+			continue
+		}
+		key := keyOf(k, "json", "parse")
+		up, ti := strings.ToUpper(key), strings.ToUpper(key[:1])+key[1:]
+		if up == key || ti == key || up == ti {
+			continue
+		}
+		present := false
+		for _, e := range in.Items {
+			if e.Key == key && e.Val.T != "missing" {
+				present = true
+			}
+		}
+		if present {
+			continue
+		}
+		in.Items = append(in.Items, Ent{Key: up, Val: jsonLeaf(val(1), k.Node.Ty)}, Ent{Key: ti, Val: jsonLeaf(bad(), k.Node.Ty)})
 	}
 }
 
@@ -144,8 +176,12 @@ func famPairsPT(tw *traceWriter, r *rand.Rand, n int) {
 		sch := genStruct(r, g, 0)
 		var mark func(n *Node, depth int)
 		mark = func(n *Node, depth int) {
-			if n.K == "prim" && n.Catch == None {
+			if n.K == "prim" {
 				n.Pts = []string{"mut"}
+				if n.Catch != None && n.Ty != "str" && r.Intn(2) == 0 {
+					// the catch fires (no generated value reaches 5): what runs after it must be the same in both modes
+					n.Tests = append(n.Tests, Test{Kind: "gt", N: 5, Code: builtinCode(n.Ty, "gt")})
+				}
 			}
 			if n.K == "struct" && depth > 0 {
 				n.Tests = []Test{}
@@ -314,6 +350,14 @@ func famLong(tw *traceWriter, r *rand.Rand, n int) {
 				in = mapIn(Ent{Key: "a", Val: list(ms...)})
 			}
 			tw.emitCase(&Case{ID: fmt.Sprintf("long%d", i), Mode: mode, Fe: "map", Schema: sch, Input: in}, "", true)
+			if mode == "validate" {
+				// ... and as a Validate / Parse pair on the same value (C13)
+				id := fmt.Sprintf("longpair%d", i)
+				tw.grp = id
+				tw.emitCase(&Case{ID: id + "v", Mode: "validate", Fe: "map", Schema: sch, Input: in}, "validate13", false)
+				tw.emitCase(&Case{ID: id + "p", Mode: "parse", Fe: "map", Schema: sch, Input: in}, "parse13", false)
+				tw.grp = ""
+			}
 			i++
 		}
 	}
